@@ -19,7 +19,8 @@ from ..core import enc, dec, close
 from .. import fuels as F
 from feems.fuel import FuelConsumption, FuelSpecifiedBy, FuelConsumerClassFuelEUMaritime
 
-THEOREMS = ["add_mass", "add_total", "add_wellFormed", "add_comm", "add_assoc", "add_empty_left",
+THEOREMS = ["add_mass", "add_total", "add_kinds", "add_wellFormed", "add_is_union_merge", "add_comm", "add_assoc", "add_empty_left",
+            "legacy_counts_twice", "legacy_eq_of_wellFormed",
             "add_empty_right", "scale_mass", "scale_total", "scale_kinds", "fractions_mass",
             "fractions_sum", "fractions_zero"]
 
@@ -41,6 +42,8 @@ def gen_case(rng, idx):
     for _ in range(n_rec):
         nk = int(rng.choice([0, 1, 2, 3, 4], p=[0.08, 0.25, 0.3, 0.25, 0.12]))
         ks = [pool_kinds[i] for i in rng.choice(5, size=nk, replace=False)]
+        if nk and rng.random() < 0.2:        # a kind listed twice: main and pilot fuel of the same kind (D20)
+            ks.insert(int(rng.integers(0, nk + 1)), ks[int(rng.integers(nk))])
         entries = []
         for k in ks:
             if n_steps == 0 or (mixed and rng.random() < 0.5):
@@ -268,6 +271,7 @@ def run(ctx):
     for ci, case in enumerate(cases):
         info = run_case(ctx, case)
         ctx.count("n_steps", case["n_steps"])
+        ctx.count("kind_listed_twice", any(len({tuple(e["kind"]) for e in r}) < len(r) for r in case["recs"]))
         ctx.count("records_sizes", ",".join(str(len(r)) for r in case["recs"]))
         sig = (case["n_steps"], tuple(tuple(tuple(e["kind"]) for e in r) for r in case["recs"]),
                tuple((o["op"], o.get("i"), o.get("j")) for o in case["ops"]))
